@@ -36,7 +36,7 @@ ANCHORS = [
     "acnportal.acnsim.analysis:datetimes_array",
 ]
 REQUIRED = ["q:aggregate_current", "q:aggregate_power", "q:constraint_currents", "q:constraint_currents_reordered",
-            "q:constraint_currents_duplicates", "q:energy", "q:demands_met", "q:unbalance", "q:unbalance_nan_positions",
+            "q:constraint_currents_duplicates", "q:energy", "q:demands_met", "q:demands_met_threshold_below_full_cut_discriminating", "q:unbalance", "q:unbalance_nan_positions",
             "q:datetimes", "q:datetimes_partial_run", "regime:hetero-voltage", "regime:mixed-sign", "regime:constraint-free"]
 BUDGET_S = {"quick": 240, "thorough": 3000}
 
@@ -181,12 +181,14 @@ def run_case(case, obs):
         judge("energy", acnsim.total_energy_delivered(sim), tot_d, which="total_energy_delivered")
         judge("energy", acnsim.total_energy_requested(sim), tot_r, which="total_energy_requested")
         judge("energy", acnsim.proportion_of_energy_delivered(sim), tot_d / tot_r, which="proportion_of_energy_delivered")
-        for th in (0.1, 1e-3, 1.0, rng.choice([0.05, 0.5, 2.0, 7.5])):
+        for th in (0.1, 1e-3, 1.0, rng.choice([0.05, 0.5, 2.0, 7.5]), 0.0, rng.choice([5e-4, 1e-4, -1e-9, -0.5, 2e-3])):
             rem = [s["requested"] - deliv[s["id"]] for s in sess]
             if any(abs(r_ - th) <= 1e-9 * max(1.0, s["requested"]) for r_, s in zip(rem, sess)):
                 obs.boundary += 1
                 continue
             judge("demands_met", acnsim.proportion_of_demands_met(sim, th), sum(1 for r_ in rem if r_ < th) / len(sess), threshold=th)
+            if th <= 1e-3 and any(th <= r_ <= 1e-3 for r_ in rem):
+                obs.ev("q:demands_met_threshold_below_full_cut_discriminating")
         obs.ev("q:demands_met_default")
         rem = [s["requested"] - deliv[s["id"]] for s in sess]
         if not any(abs(r_ - 0.1) <= 1e-9 * max(1.0, s["requested"]) for r_, s in zip(rem, sess)):
